@@ -98,7 +98,10 @@ impl MixSpec {
                         let mut shape = crate::c12::random_shape(&mut r, self.thorough);
                         shape.n = self.n;
                         let fill = r.next() | 1;
-                        if self.family { (*r.pick(&fam), shape0.clone(), fill) } else { (op, shape, fill) }
+                        let (op, mut shape) = if self.family { (*r.pick(&fam), shape0.clone()) } else { (op, shape) };
+                        // rank 0 only where it is a legal argument (see c12::rank0_ok)
+                        crate::c12::fix_rank0(op, &mut shape);
+                        (op, shape, fill)
                     })
                     .collect()
             })
@@ -351,11 +354,14 @@ pub fn generate(seed: u64, idx: u64, thorough: bool) -> Run {
             b: rng.next() as u32,
         })
     } else if kind < 92 {
+        // mostly 2-4 threads with a few ops each; sometimes 9-12 threads with one op each (per-key or per-module
+        // resources indexed by a small hash of the thread id only collide above their slot count)
+        let many = rng.chance(150);
         Scenario::Mix(MixSpec {
             n: *rng.pick(ns),
-            threads: rng.range(2, 4) as usize,
+            threads: if many { rng.range(9, 12) as usize } else { rng.range(2, 4) as usize },
             ops_seed: rng.next(),
-            ops_per_thread: rng.range(1, 4) as usize,
+            ops_per_thread: if many { 1 } else { rng.range(1, 4) as usize },
             thorough,
             light: false,
             family: rng.chance(300),
@@ -949,6 +955,7 @@ pub fn miri_main(args: &[String]) -> ! {
                         let mut r = Rng::new(mix(mix(shape_seed, 0x9A1, from + k), 0x9A2, 0));
                         let mut sh = crate::c12::random_shape(&mut r, false);
                         sh.n = n;
+                        crate::c12::fix_rank0(op, &mut sh);
                         sh
                     })
                     .collect();
